@@ -1,4 +1,4 @@
-import PsV.Proofs.Alloc
+import PsV.Proofs.AllocDeep
 /-!
 # C19 — estimateMemory bounds the memory requested while loading and convolving
 
@@ -127,5 +127,274 @@ theorem C19_inconsistent_file_rejected :
       estimate p < p.objsize + peak (readEvents p) ∧ loadable p = false :=
   ⟨{ objsize := 96, dims := [⟨2, 10, 1000⟩], aux := [], nauxKnotsHdu := 4, n := 1, cdim := 0 },
    by decide, by decide, by decide, by decide, by decide⟩
+
+/-! ## Deepening: exact peak, order of the cards, the destructor, arenas with padding, monotonicity, tightness -/
+
+/-- `Valid` from the two generated predicates and the two card facts (as in `C19_peak_le_estimate_loadable`). -/
+theorem C19_valid_of_loadable (p : Params) (hl : loadable p = true) (hc : convolvable p = true)
+    (card : ∀ a ∈ p.aux, a.keylen + a.vallen ≤ 82) (stored_le : ∀ a ∈ p.aux, a.storedlen ≤ a.vallen) : C19.Valid p :=
+  ⟨((C19_convolvable_iff p).mp hc).1, ((C19_convolvable_iff p).mp hc).2, card, stored_le,
+   fun d hd => (C19_loadable_consistent p hl p.cdim d hd).1⟩
+
+example : loadable C19.exampleParams = true ∧ convolvable C19.exampleParams = true ∧
+    (∀ a ∈ C19.exampleParams.aux, a.keylen + a.vallen ≤ 82) ∧ (∀ a ∈ C19.exampleParams.aux, a.storedlen ≤ a.vallen) :=
+  ⟨by decide, by decide, by decide, by decide⟩
+
+/-- **The peak, exactly.**  For every file the reader accepts and every convolution `convolve` accepts, the highest
+    level of the whole event sequence is reached at its very end: it is the footprint of the convolved table.  (The
+    transient second block of a quoted card value never shows in the peak: at least 84 bytes are requested after the
+    cards, more than a raw card value is long; and `convolve` frees before it allocates.) -/
+theorem C19_peak_exact (p : Params) (hl : loadable p = true) (hc : convolvable p = true)
+    (card : ∀ a ∈ p.aux, a.keylen + a.vallen ≤ 82) :
+    peak (readEvents p ++ convolveEvents p) = liveAfter 0 (readEvents p ++ convolveEvents p) ∧
+    peak (readEvents p ++ convolveEvents p) =
+      8 * p.aux.length + auxBytes p.aux + 68 * p.dims.length + 4 * prodNaxes (convDims p) + knotBytes (convDims p) := by
+  obtain ⟨hn, hcd⟩ := (C19_convolvable_iff p).mp hc
+  have ht := tail_ge p hl (by omega)
+  have hC : ∀ a ∈ p.aux, a.vallen ≤ 68 * p.dims.length + 4 * prodNaxes p.dims + knotBytes p.dims :=
+    fun a ha => by have := card a ha; omega
+  have hle := readBytes_le_convolvedBytes p hn (fun d hd => (C19_loadable_consistent p hl p.cdim d hd).1)
+  have e := read_convolve_peak_exact p hC
+  rw [Nat.max_eq_right hle] at e
+  rw [C19_live_after_convolve]
+  exact ⟨e, e⟩
+
+/-- **Loading alone, exactly**: the peak of the load is the footprint of the loaded table. -/
+theorem C19_peak_read_exact (p : Params) (hl : loadable p = true) (hnd : 0 < p.dims.length)
+    (card : ∀ a ∈ p.aux, a.keylen + a.vallen ≤ 82) :
+    peak (readEvents p) =
+      8 * p.aux.length + auxBytes p.aux + 68 * p.dims.length + 4 * prodNaxes p.dims + knotBytes p.dims := by
+  have ht := tail_ge p hl hnd
+  exact read_peak_exact p (fun a ha => by have := card a ha; omega)
+
+example : peak (readEvents C19.exampleParams ++ convolveEvents C19.exampleParams) = 3946 ∧
+    liveAfter 0 (readEvents C19.exampleParams ++ convolveEvents C19.exampleParams) = 3946 ∧
+    peak (readEvents C19.exampleParams) = 1234 ∧ 0 < C19.exampleParams.dims.length := by decide
+
+/-- **The order of the auxiliary cards does not matter**: the same file with its cards in any other order has the same
+    peak and the same estimate (the level *during* the cards does depend on their order, the peak does not). -/
+theorem C19_peak_aux_order (p : Params) (aux' : List AuxEntry) (hperm : aux'.Perm p.aux)
+    (hl : loadable p = true) (hc : convolvable p = true) (card : ∀ a ∈ p.aux, a.keylen + a.vallen ≤ 82) :
+    peak (readEvents { p with aux := aux' } ++ convolveEvents { p with aux := aux' }) =
+      peak (readEvents p ++ convolveEvents p) ∧
+    estimate { p with aux := aux' } = estimate p := by
+  have h1 := (C19_peak_exact p hl hc card).2
+  have h2 := (C19_peak_exact { p with aux := aux' } hl hc (fun a ha => card a (hperm.mem_iff.mp ha))).2
+  have hlen : aux'.length = p.aux.length := hperm.length_eq
+  have hb : auxBytes aux' = auxBytes p.aux := auxBytes_perm _ _ hperm
+  refine ⟨?_, ?_⟩
+  · rw [h1, h2]; simp only [convDims, hlen, hb]
+  · simp only [estimate, estimateWith, rawSizeWith, estDims, nauxCounted, hlen]
+
+example : [⟨9, 71, 69⟩, ⟨5, 12, 9⟩, ⟨7, 3, 3⟩].Perm C19.exampleParams.aux ∧
+    peakFrom 0 (.alloc 24 :: ([⟨9, 71, 69⟩, ⟨5, 12, 9⟩, ⟨7, 3, 3⟩].flatMap auxSeg)) = 189 ∧
+    peakFrom 0 (.alloc 24 :: (C19.exampleParams.aux.flatMap auxSeg)) = 245 := by
+  refine ⟨?_, by decide, by decide⟩
+  exact (List.Perm.swap _ _ _).trans ((List.Perm.refl _).cons _ |>.trans (List.Perm.swap _ _ _ |>.cons _ |>.trans (List.Perm.refl _))) |>.trans (List.Perm.refl _)
+
+/-- **Construct, convolve, destroy.**  With the call sites of `~splinetable` (generated: `destroyBlocks`) appended,
+    nothing is ever released that is not live, every byte is given back, and the destructor does not raise the peak.
+    No hypothesis: this holds for every file description and every declared convolution. -/
+theorem C19_lifecycle (p : Params) :
+    balanced 0 (lifeEvents p) = true ∧ liveAfter 0 (lifeEvents p) = 0 ∧
+    peak (lifeEvents p) = peak (readEvents p ++ convolveEvents p) := by
+  obtain ⟨b1, _, l1⟩ := read_convolve_run p ((p.aux.map (·.vallen)).sum)
+    (fun _ ha => le_sum_of_mem _ _ (List.mem_map_of_mem ha))
+  obtain ⟨d1, d2, d3⟩ := cost_destroy_run (fun n => n) p (convDims p)
+  rw [costEvents_id, footprintC_id_conv] at d1 d2 d3
+  have hp := liveAfter_le_peakFrom 0 (readEvents p ++ convolveEvents p)
+  unfold lifeEvents peak
+  refine ⟨?_, ?_, ?_⟩
+  · rw [balanced_append, b1, l1, d3]; rfl
+  · rw [liveAfter_append, l1, d2]
+  · rw [peakFrom_append, l1, d1]; rw [l1] at hp; omega
+
+/-- the same for a table that is loaded and destroyed without a convolution -/
+theorem C19_lifecycle_load_only (p : Params) :
+    balanced 0 (readEvents p ++ destroyEvents p p.dims) = true ∧
+    liveAfter 0 (readEvents p ++ destroyEvents p p.dims) = 0 ∧
+    peak (readEvents p ++ destroyEvents p p.dims) = peak (readEvents p) := by
+  obtain ⟨l1, _, b1⟩ := read_run p ((p.aux.map (·.vallen)).sum)
+    (fun _ ha => le_sum_of_mem _ _ (List.mem_map_of_mem ha))
+  obtain ⟨d1, d2, d3⟩ := cost_destroy_run (fun n => n) p p.dims
+  rw [costEvents_id, footprintC_id_read] at d1 d2 d3
+  have hp := liveAfter_le_peakFrom 0 (readEvents p)
+  unfold peak
+  refine ⟨?_, ?_, ?_⟩
+  · rw [balanced_append, b1, l1, d3]; rfl
+  · rw [liveAfter_append, l1, d2]
+  · rw [peakFrom_append, l1, d1]; rw [l1] at hp; omega
+
+/-- the same in any arena (`c n` bytes used for a request of `n`, whatever `c` is): what is released was requested with
+    the same size, so the arena's ledger is balanced too and returns to zero -/
+theorem C19_lifecycle_cost (c : Nat → Nat) (p : Params) :
+    balanced 0 (costEvents c (lifeEvents p)) = true ∧ liveAfter 0 (costEvents c (lifeEvents p)) = 0 := by
+  obtain ⟨b1, _, l1⟩ := cost_read_convolve_run c p ((p.aux.map fun a => c a.vallen).sum)
+    (fun a ha => le_sum_of_mem _ _ (List.mem_map_of_mem (f := fun a => c a.vallen) ha))
+  obtain ⟨_, d2, d3⟩ := cost_destroy_run c p (convDims p)
+  unfold lifeEvents
+  rw [costEvents_append]
+  refine ⟨?_, ?_⟩
+  · rw [balanced_append, b1, l1, d3]; rfl
+  · rw [liveAfter_append, l1, d2]
+
+example : liveAfter 0 (arenaEvents 16 16 (lifeEvents C19.exampleParams)) = 0 :=
+  (C19_lifecycle_cost (fun n => alignUp 16 n + 16) C19.exampleParams).2
+
+example : (destroyEvents C19.exampleParams (convDims C19.exampleParams)).length = 22 ∧
+    freeBytes (destroyEvents C19.exampleParams (convDims C19.exampleParams)) = 3946 := by decide
+
+/-- **Arenas that use more than was requested (general form).**  Let an arena use `c n` bytes for a request of `n`
+    bytes, with `c 16 ≤ 16 + e16`, `c n ≤ n + e1`, `c (4k) ≤ 4k + e4`, `c (8k) ≤ 8k + e8` (`PadBound`).  If
+    `e16 + 2·e1 ≤ 40` (what `estimateMemory` leaves over per card: 146 − 8 − 98) and `(8 + ndim)·e8 + 2·e4 ≤ 1025`
+    (its final rounding), then for every file the reader accepts and every convolution `convolve` accepts the arena
+    never holds more than `estimateMemory` returns, and releases only what it holds. -/
+theorem C19_peak_cost_le_estimate (c : Nat → Nat) (e16 e1 e4 e8 : Nat) (hb : PadBound c e16 e1 e4 e8) (p : Params)
+    (hl : loadable p = true) (hc : convolvable p = true)
+    (card : ∀ a ∈ p.aux, a.keylen + a.vallen ≤ 82) (stored_le : ∀ a ∈ p.aux, a.storedlen ≤ a.vallen)
+    (h1 : e16 + 2 * e1 ≤ 40) (h3 : 8 * e8 + e8 * p.dims.length + 2 * e4 ≤ 1025) :
+    balanced 0 (costEvents c (readEvents p ++ convolveEvents p)) = true ∧
+    p.objsize + peak (costEvents c (readEvents p ++ convolveEvents p)) ≤ estimate p :=
+  cost_peak_le_estimate hb p ((C19_convolvable_iff p).mp hc).1 card stored_le
+    (fun d hd => (C19_loadable_consistent p hl p.cdim d hd).1) h1 h3
+
+example : PadBound (alignUp 16) 0 15 12 8 ∧ 0 + 2 * 15 ≤ 40 ∧ 8 * 8 + 8 * C19.exampleParams.dims.length + 2 * 12 ≤ 1025 :=
+  ⟨padBound_align16, by decide, by decide⟩
+
+/-- **Aligned blocks.**  When every block is rounded up to a multiple of `A ∈ {1, 2, 4, 8, 16}` the bound still holds:
+    for `A ≤ 8` for every table, for `A = 16` for tables of up to 117 dimensions (every per-dimension array may then
+    lose 8 bytes, which the 1025 bytes of rounding must cover). -/
+theorem C19_peak_aligned_le_estimate (p : Params) (hl : loadable p = true) (hc : convolvable p = true)
+    (card : ∀ a ∈ p.aux, a.keylen + a.vallen ≤ 82) (stored_le : ∀ a ∈ p.aux, a.storedlen ≤ a.vallen)
+    (A : Nat) (hA : A ∣ 16) (hnd : A = 16 → p.dims.length ≤ 117) :
+    balanced 0 (padEvents A (readEvents p ++ convolveEvents p)) = true ∧
+    p.objsize + peak (padEvents A (readEvents p ++ convolveEvents p)) ≤ estimate p := by
+  rcases dvd16_cases A hA with rfl | rfl | rfl | rfl | rfl
+  · exact C19_peak_cost_le_estimate _ 0 7 4 0 (padBound_align8 1 (by decide)) p hl hc card stored_le (by decide) (by omega)
+  · exact C19_peak_cost_le_estimate _ 0 7 4 0 (padBound_align8 2 (by decide)) p hl hc card stored_le (by decide) (by omega)
+  · exact C19_peak_cost_le_estimate _ 0 7 4 0 (padBound_align8 4 (by decide)) p hl hc card stored_le (by decide) (by omega)
+  · exact C19_peak_cost_le_estimate _ 0 7 4 0 (padBound_align8 8 (by decide)) p hl hc card stored_le (by decide) (by omega)
+  · have := hnd rfl
+    exact C19_peak_cost_le_estimate _ 0 15 12 8 padBound_align16 p hl hc card stored_le (by decide) (by omega)
+
+example : (16 ∣ 16) ∧ C19.exampleParams.dims.length ≤ 117 ∧
+    peak (padEvents 16 (readEvents C19.exampleParams ++ convolveEvents C19.exampleParams)) = 4080 := by decide
+
+/-- **Blocks with a header.**  An arena that puts a header of `H ≤ 8` bytes before every block and aligns blocks to
+    `A ∈ {1, 2, 4, 8}` is covered as long as `H·(ndim + 10) ≤ 1017`. -/
+theorem C19_peak_arena_le_estimate (p : Params) (hl : loadable p = true) (hc : convolvable p = true)
+    (card : ∀ a ∈ p.aux, a.keylen + a.vallen ≤ 82) (stored_le : ∀ a ∈ p.aux, a.storedlen ≤ a.vallen)
+    (A H : Nat) (hA : A ∣ 8) (hH : H ≤ 8) (hnd : 10 * H + H * p.dims.length ≤ 1017) :
+    balanced 0 (arenaEvents A H (readEvents p ++ convolveEvents p)) = true ∧
+    p.objsize + peak (arenaEvents A H (readEvents p ++ convolveEvents p)) ≤ estimate p :=
+  C19_peak_cost_le_estimate _ H (7 + H) (4 + H) H (padBound_arena8 A H hA) p hl hc card stored_le (by omega) (by omega)
+
+example : (8 ∣ 8) ∧ 10 * 8 + 8 * C19.exampleParams.dims.length ≤ 1017 ∧
+    peak (arenaEvents 8 8 (readEvents C19.exampleParams ++ convolveEvents C19.exampleParams)) = 4152 := by decide
+
+set_option maxRecDepth 16384 in
+/-- **Where the arena bounds end.**  The hypotheses above are needed: with a 16-byte header per block and 16-byte
+    alignment (a common general-purpose arena layout), or with cache-line (64-byte) alignment, a 1-dimensional table with 47
+    full-width auxiliary cards needs more than `estimateMemory` returns, although the bytes *requested* stay below
+    it.  `estimateMemory` bounds requested bytes; it leaves 40 bytes per card and 1–2 KB in total for the arena's own
+    bookkeeping and nothing more. -/
+theorem C19_arena_overhead_can_exceed :
+    ∃ p : Params, C19.Valid p ∧ loadable p = true ∧
+      p.objsize + peak (readEvents p ++ convolveEvents p) ≤ estimate p ∧
+      estimate p < p.objsize + peak (arenaEvents 16 16 (readEvents p ++ convolveEvents p)) ∧
+      estimate p < p.objsize + peak (padEvents 64 (readEvents p ++ convolveEvents p)) :=
+  ⟨{ objsize := 96, dims := [⟨0, 2, 1⟩], aux := List.replicate 47 ⟨9, 71, 69⟩, nauxKnotsHdu := 4, n := 1, cdim := 0 },
+   ⟨by decide, by decide, by decide, by decide, by intro d hd; simp at hd; subst hd; decide⟩,
+   by decide, by decide, by decide, by decide⟩
+
+/-- **`estimateMemory` is monotone** in the object size, the number of auxiliary cards, the number of kernel knots and
+    the order / knot count / coefficient count of every dimension (`ParamsLe`; in the convolved dimension
+    `nknots − order` must not drop). -/
+theorem C19_estimate_mono (p q : Params) (h : ParamsLe p q) : estimate p ≤ estimate q := estimate_mono p q h
+
+/-- For two files the reader accepts, growing pointwise is enough for `ParamsLe`. -/
+theorem C19_paramsLe_of_loadable (p q : Params) (hp : loadable p = true) (hq : loadable q = true)
+    (h1 : p.objsize ≤ q.objsize) (h2 : p.aux.length ≤ q.aux.length) (h3 : p.n ≤ q.n) (h4 : p.cdim = q.cdim)
+    (h5 : DimsLe p.dims q.dims) : ParamsLe p q := paramsLe_of_loadable p q hp hq h1 h2 h3 h4 h5
+
+/-- the example file, and the same file with a larger object, one more card, a longer kernel, and more knots and
+    coefficients (orders 2,0,3 → 2,1,3) -/
+example : ParamsLe C19.exampleParams
+    { objsize := 104, dims := [⟨2, 10, 7⟩, ⟨1, 6, 4⟩, ⟨3, 14, 10⟩], aux := [⟨5, 12, 9⟩, ⟨7, 3, 3⟩, ⟨9, 71, 69⟩, ⟨3, 3, 3⟩],
+      nauxKnotsHdu := 4, n := 5, cdim := 2 } :=
+  paramsLe_of_loadable _ _ (by decide) (by decide) (by decide) (by decide) (by decide) rfl
+    ⟨⟨by decide, by decide, by decide⟩, ⟨by decide, by decide, by decide⟩, ⟨by decide, by decide, by decide⟩, True.intro⟩
+
+/-- **Not monotone in the order alone**: raising the order of the convolved dimension while keeping its knot vector
+    removes coefficients (`naxes = nknots − order − 1`), and in more than one dimension that outweighs the longer knot
+    padding: both files are accepted by the reader, the second differs only in the order (0 → 40) of dimension 0 and the
+    coefficient count that goes with it, and its estimate is smaller. -/
+theorem C19_estimate_not_monotone_in_order :
+    ∃ p q : Params, loadable p = true ∧ loadable q = true ∧
+      p.dims = [⟨0, 100, 99⟩, ⟨0, 1001, 1000⟩] ∧ q.dims = [⟨40, 100, 59⟩, ⟨0, 1001, 1000⟩] ∧
+      p.objsize = q.objsize ∧ p.aux = q.aux ∧ p.n = q.n ∧ p.cdim = q.cdim ∧ estimate q < estimate p :=
+  ⟨{ objsize := 96, dims := [⟨0, 100, 99⟩, ⟨0, 1001, 1000⟩], aux := [], nauxKnotsHdu := 4, n := 1, cdim := 0 },
+   { objsize := 96, dims := [⟨40, 100, 59⟩, ⟨0, 1001, 1000⟩], aux := [], nauxKnotsHdu := 4, n := 1, cdim := 0 },
+   by decide, by decide, rfl, rfl, rfl, rfl, rfl, rfl, by decide⟩
+
+/-- **The bound is tight up to the rounding and the per-card allowance**: the estimate exceeds object + peak by at
+    most 2048 bytes plus, per auxiliary card, the difference between the 146 bytes assumed and the `8 + 16 + keylen +
+    storedlen` bytes the card occupies. -/
+theorem C19_estimate_le_peak_plus (p : Params) (hn : 1 ≤ p.n) :
+    estimate p + (8 * p.aux.length + auxBytes p.aux) ≤
+      p.objsize + peak (readEvents p ++ convolveEvents p) + 2048 + 146 * p.aux.length :=
+  estimate_le_peak_plus p hn
+
+example : 1 ≤ C19.exampleParams.n ∧ estimate C19.exampleParams + (8 * 3 + auxBytes C19.exampleParams.aux) = 6318 ∧
+    C19.exampleParams.objsize + peak (readEvents C19.exampleParams ++ convolveEvents C19.exampleParams) + 2048 + 146 * 3 = 6528 := by
+  decide
+
+/-- a 1-dimensional table of order 0 with `k + 2` knots, no auxiliary cards, no convolution -/
+def C19.tightParams (k : Nat) : Params :=
+  { objsize := 96, dims := [⟨0, k + 2, k + 1⟩], aux := [], nauxKnotsHdu := 4, n := 1, cdim := 0 }
+
+/-- **Tightness witness (a family)**: for the tables `tightParams k` the peak is `12·k + 88` bytes and the estimate is
+    at most 2048 bytes above object + peak, so `peak / estimate → 1`. -/
+theorem C19_tight_family (k : Nat) :
+    C19.Valid (C19.tightParams k) ∧ loadable (C19.tightParams k) = true ∧ convolvable (C19.tightParams k) = true ∧
+    peak (readEvents (C19.tightParams k) ++ convolveEvents (C19.tightParams k)) = 12 * k + 88 ∧
+    estimate (C19.tightParams k) ≤ 96 + (12 * k + 88) + 2048 := by
+  have hl : loadable (C19.tightParams k) = true := by
+    simp [loadable, readerRejects, C19.tightParams]
+  have hc : convolvable (C19.tightParams k) = true := by
+    simp [convolvable, convolveRejects, C19.tightParams]
+  have hv : C19.Valid (C19.tightParams k) :=
+    C19_valid_of_loadable _ hl hc (by simp [C19.tightParams]) (by simp [C19.tightParams])
+  have hp : peak (readEvents (C19.tightParams k) ++ convolveEvents (C19.tightParams k)) = 12 * k + 88 := by
+    rw [(C19_peak_exact _ hl hc (by simp [C19.tightParams])).2]
+    simp [C19.tightParams, convDims, adjustAt, convDim, prodNaxes, knotBytes, auxBytes]
+    omega
+  refine ⟨hv, hl, hc, hp, ?_⟩
+  have := C19_estimate_le_peak_plus (C19.tightParams k) (by simp [C19.tightParams])
+  rw [hp] at this
+  simp [C19.tightParams, auxBytes] at this ⊢
+  omega
+
+/-- **The relative slack vanishes**: for every `M` there is a valid, loadable file whose estimate exceeds object + peak
+    by less than a fraction `1/M` of the estimate. -/
+theorem C19_relative_slack_vanishes (M : Nat) :
+    ∃ p : Params, C19.Valid p ∧ loadable p = true ∧
+      p.objsize + peak (readEvents p ++ convolveEvents p) ≤ estimate p ∧
+      M * (estimate p - (p.objsize + peak (readEvents p ++ convolveEvents p))) ≤ estimate p := by
+  obtain ⟨hv, hl, _, hp, he⟩ := C19_tight_family (171 * M)
+  refine ⟨C19.tightParams (171 * M), hv, hl, (C19_peak_le_estimate _ hv).2, ?_⟩
+  have hlow := (C19_peak_le_estimate _ hv).2
+  rw [hp] at hlow ⊢
+  have hobj : (C19.tightParams (171 * M)).objsize = 96 := rfl
+  rw [hobj] at hlow ⊢
+  have h1 : estimate (C19.tightParams (171 * M)) - (96 + (12 * (171 * M) + 88)) ≤ 2048 := by omega
+  have h2 := Nat.mul_le_mul_left M h1
+  omega
+
+example : C19.tightParams 1000 = { objsize := 96, dims := [⟨0, 1002, 1001⟩], aux := [], nauxKnotsHdu := 4, n := 1, cdim := 0 } ∧
+    estimate (C19.tightParams 1000) = 13312 ∧
+    peak (readEvents (C19.tightParams 1000) ++ convolveEvents (C19.tightParams 1000)) = 12088 := by
+  refine ⟨rfl, by decide, ?_⟩
+  exact (C19_tight_family 1000).2.2.2.1
 
 end PsV
